@@ -302,6 +302,19 @@ func Roots(v ssa.Value) []Root {
 		case *ssa.Const:
 			out = append(out, Root{"const", vstr(v), path, v})
 		case *ssa.Call:
+			// the value a new helper (ip.go) returns is what its return statements return
+			if h := helperCallee(v); h != nil && h.Signature.Results().Len() == 1 && d < 16 {
+				n := 0
+				for _, r := range Returns(h) {
+					if len(r.Results) == 1 {
+						n++
+						walk(r.Results[0], path, d+1)
+					}
+				}
+				if n > 0 {
+					return
+				}
+			}
 			out = append(out, Root{"call", calleeNameCommon(&v.Call), path, v})
 		case *ssa.Alloc:
 			// follow all stores into the alloc
@@ -332,6 +345,18 @@ func Roots(v ssa.Value) []Root {
 			walk(v.X, path, d+1)
 		case *ssa.Extract:
 			if c, ok := v.Tuple.(*ssa.Call); ok {
+				if h := helperCallee(c); h != nil && d < 16 {
+					n := 0
+					for _, r := range Returns(h) {
+						if v.Index < len(r.Results) {
+							n++
+							walk(r.Results[v.Index], path, d+1)
+						}
+					}
+					if n > 0 {
+						return
+					}
+				}
 				out = append(out, Root{"call", calleeNameCommon(&c.Call) + "#" + fmt.Sprint(v.Index), path, v})
 			} else {
 				walk(v.Tuple, path, d+1)
